@@ -403,6 +403,20 @@ func c04Run(c *engine.Ctx) {
 	}
 	c.Sample(map[string]any{"program": ".[def f: nosuch; 2]", "oracle": "the same compile outcome and outputs in all 16 configurations"})
 
+	// a self call in tail position below a binding of the same function, with something that backtracks in between:
+	// the frame of the outer call is needed again after the inner call has returned
+	c.Sub("bound-tailcalls")
+	{
+		progs, bins := c04BoundTailcalls()
+		for bi, prog := range progs {
+			if !c.MineIdx(bi) || c.Expired() {
+				continue
+			}
+			c04Program(c, prog, bins, cfgs)
+		}
+		c.Sample(map[string]any{"program": "def f: length as $n | .[] | if type == \"array\" then f else [$n, .] end; [f]", "input": "[[1,2,3],9]", "programs": len(progs)})
+	}
+
 	c.Sub("towers")
 	ti := 0
 	towerPrograms(2, func(p string) {
@@ -414,11 +428,33 @@ func c04Run(c *engine.Ctx) {
 	})
 }
 
+// c04BoundTailcalls: recursive functions whose self call stands in tail position below a binding of the same call, with
+// a generator in between (also used by C01 against the reference interpreter).
+func c04BoundTailcalls() (progs []string, bins []any) {
+	binds := []string{"length as $n", ". as $n", "(.[0]? // 0) as $n", ". as [$n]", "(. as {a: $n} | .)? // (null as $n | .)", "length as $n | $n as $m", "reduce 1 as $r (0; .) as $n"}
+	gens := []string{".[]", ".[]?", "(.[]?, 9)", "h", "first(.[]?)", "limit(2; .[]?)", "(.[]? | select(true))", "(.[1:][]?, .[0]?)", ".[] as $e | $e", "(label $l | .[]?, break $l)", "(try .[] catch empty)", "foreach .[]? as $e (0; $e)"}
+	conds := []string{"type == \"array\"", "type == \"array\" and length > 0", "(type == \"array\") | not | not"}
+	shapes := []string{"def h: ., 8; def f: B | G | if C then f else [$n, .] end; [f]", "def h: ., 8; def f: B | G | if C | not then [$n, .] else f end; [limit(9; f)]", "def h: ., 8; def f: B | [G | if C then f else [$n, .] end]; f",
+		"def h: ., 8; def f: B | try (G | if C then f else [$n, .] end) catch \"e\"; [f]", "def h: ., 8; def f($d): B | G | if C then f($d + 1) else [$n, $d, .] end; [f(0)]", "def h: ., 8; def f: B | label $o | G | if C then f else [$n, .] end; [f]",
+		"def h: ., 8; def f: B | G | if C then f else $n end; [f] | add?", "def h: ., 8; def f: def k: G; B | k | if C then f else [$n, .] end; [f]"}
+	bins = []any{univ.J(`[[1,2,3],9]`), univ.J(`[[[1],2],3]`), univ.J(`[]`), univ.J(`[[],[[]]]`), univ.J(`[[4,[5,6]],[7]]`), nil, univ.J(`{"a":[1,[2]]}`)}
+	for _, sh := range shapes {
+		for _, b := range binds {
+			for _, g := range gens {
+				for _, cd := range conds {
+					progs = append(progs, strings.NewReplacer("B", b, "G", g, "C", cd).Replace(sh))
+				}
+			}
+		}
+	}
+	return
+}
+
 func init() {
 	engine.Register(&engine.Check{
 		ID:    "C04",
 		Level: "exploration",
-		Rule: "every derivation of 5 grammars that sit on the rewrite preconditions (literal arrays/objects of every shape, one-instruction arguments of native calls, conditionals with constant branches, self calls in and out of tail position, constant and near-constant paths on the left of update operators), of the C01/C02 grammars, every context tower of depth 2 and every corpus query is compiled under 16 configurations " +
+		Rule: "every derivation of 5 grammars that sit on the rewrite preconditions (literal arrays/objects of every shape, one-instruction arguments of native calls, conditionals with constant branches, self calls in and out of tail position and below bindings with a generator in between, constant and near-constant paths on the left of update operators), of the C01/C02 grammars, every context tower of depth 2 and every corpus query is compiled under 16 configurations " +
 			"(all optimisations on, each of 14 switched off alone, all off) and run on every input of the universe; output sequences must be identical. A configuration whose instruction list equals the all-on list is not re-run. distinct_nontrivial counts programs for which at least one configuration produced different code.",
 		Assume: []string{
 			"the 14 switches (build tag verif, add-only guards in compiler.go) select the general lowering the compiler already has",
